@@ -15,6 +15,7 @@ GENERATED = ["Datatypes", "SdoConst"]
 THEOREMS = [
     "Canopen.C06.read_refusal_codes",
     "Canopen.C06.write_refusal_codes",
+    "Canopen.C06.callback_refusal_code",
     "Canopen.C06.refused_read",
     "Canopen.C06.refused_write_inert",
     "Canopen.C06.any_refusal_inert",
@@ -81,15 +82,11 @@ def run_cbref(a):
     def refuse(index, subindex, od, data, **kw):
         if (index, subindex) == (idx, sub):
             raise SdoAbortedError(code)
-    rig.node.add_write_callback(refuse)
+    rig.node._write_callbacks.insert(0, refuse)          # asked first: nothing else has been told yet
     x = c02.ref_download(rig, idx, sub, data, a[5] == "1", [7, 7, 7])
     st = rig.store_view()
     y = c02.ref_upload(rig, idx, sub)
     return f"{x} | store: {st} | readback: {y}"
-
-
-def model_skips(op):
-    return op.startswith("cbref ")
 
 
 def run_impl(op):
